@@ -6,6 +6,7 @@ import (
 	"os"
 	"path/filepath"
 	"runtime"
+	"runtime/debug"
 	"sort"
 	"strconv"
 	"strings"
@@ -139,6 +140,49 @@ func (r *Run) mixHash(s string) {
 	r.seqHash = h
 }
 
+// HandlePanic classifies a recovered panic: a node exit sentinel is ignored, a
+// panic raised inside LiteFS (or a library it calls) is a violation of the
+// running property ("the code panicked"), anything raised by the harness
+// itself is harness trouble.
+func (r *Run) HandlePanic(rec any, stack []byte) {
+	if _, ok := rec.(nodeExit); ok {
+		return
+	}
+	if panicFromSUT(stack) {
+		st := string(stack)
+		if len(st) > 3000 {
+			st = st[:3000]
+		}
+		r.Failf(strings.ToLower(r.Prop)+".sut-panic", "LiteFS panicked: %v\n%s", rec, st)
+		if onFatal != nil {
+			onFatal(r) // does not return: locks may be held, the bubble cannot drain
+		}
+		return
+	}
+	r.Inconclusive("harness panic: %v\n%s", rec, stack)
+}
+
+// panicFromSUT reports whether the innermost non-runtime frame below the
+// panic call belongs to code outside the harness.
+func panicFromSUT(stack []byte) bool {
+	lines := strings.Split(string(stack), "\n")
+	seenPanic := false
+	for _, l := range lines {
+		if strings.HasPrefix(l, "panic(") {
+			seenPanic = true
+			continue
+		}
+		if !seenPanic || strings.HasPrefix(l, "\t") || l == "" {
+			continue
+		}
+		if strings.HasPrefix(l, "runtime.") || strings.HasPrefix(l, "runtime/") {
+			continue
+		}
+		return !strings.HasPrefix(l, "github.com/superfly/litefs/verifsim.")
+	}
+	return false
+}
+
 // SimNow returns simulated time since the start of the run.
 func (r *Run) SimNow() time.Duration { return time.Since(r.simStart) }
 
@@ -232,6 +276,7 @@ type Sched struct {
 	Stick     int                    // percent chance of continuing the last goroutine
 	Parks     func(seam string) bool // which seams are yield points (nil = all)
 	Fair      bool
+	MaxTick   time.Duration // cap for time jumps (0 = none); set when goroutines poll on short tickers
 	rr        int
 }
 
@@ -256,6 +301,9 @@ func (s *Sched) Go(name string, fn func()) {
 			s.mu.Lock()
 			delete(s.byID, g.id)
 			s.mu.Unlock()
+			if rec := recover(); rec != nil {
+				s.r.HandlePanic(rec, debug.Stack())
+			}
 		}()
 		fn()
 	}()
@@ -440,6 +488,9 @@ func (s *Sched) StepOnce(actions []Action, tickOK bool) bool {
 			d = ds[r.Tape.Next(len(ds))]
 			if nextWake > now && nextWake-now < d {
 				d = nextWake - now
+			}
+			if s.MaxTick > 0 && d > s.MaxTick {
+				d = s.MaxTick
 			}
 		}
 		r.mixHash("tick")
